@@ -403,3 +403,156 @@ func Instrument(p *Program, name string) int {
 	}
 	return site
 }
+
+// FreeNames returns the identifiers that the function's own code refers to (not descending into
+// nested function literals) and does not declare itself. Over-approximates: callers resolve the
+// names and ignore globals and builtins.
+func FreeNames(fl *FuncLit) []string {
+	declared := map[string]bool{}
+	used := map[string]bool{}
+	for _, p := range fl.Params {
+		declared[p.Name] = true
+	}
+	if fl.Name != "" {
+		declared[fl.Name] = true
+	}
+	var ws func(s Stmt)
+	var we func(e Expr)
+	wl := func(l []Stmt) {
+		for _, s := range l {
+			ws(s)
+		}
+	}
+	we = func(e Expr) {
+		switch x := e.(type) {
+		case nil:
+		case *Ident:
+			used[x.Name] = true
+		case *TemplateLit:
+			for _, p := range x.Parts {
+				if p.X != nil {
+					we(p.X)
+				}
+			}
+		case *Prefix:
+			we(x.X)
+		case *Paren:
+			we(x.X)
+		case *Binary:
+			we(x.L)
+			we(x.R)
+		case *InExpr:
+			we(x.X)
+			we(x.C)
+		case *Ternary:
+			we(x.C)
+			we(x.A)
+			we(x.B)
+		case *Index:
+			we(x.X)
+			we(x.I)
+		case *SliceE:
+			we(x.X)
+			we(x.Lo)
+			we(x.Hi)
+		case *Attr:
+			we(x.X)
+		case *MethodCall:
+			we(x.X)
+			for _, a := range x.Args {
+				we(a)
+			}
+		case *Call:
+			we(x.F)
+			for _, a := range x.Args {
+				we(a)
+			}
+		case *ListLit:
+			for _, a := range x.Items {
+				we(a)
+			}
+		case *MapLit:
+			for _, a := range x.Vals {
+				we(a)
+			}
+		case *SetLit:
+			for _, a := range x.Items {
+				we(a)
+			}
+		case *FuncLit:
+			// nested literal: its free variables are resolved when IT is created
+		case *IfExpr:
+			we(x.Cond)
+			wl(x.Then)
+			if x.ElseIf != nil {
+				we(x.ElseIf)
+			}
+			wl(x.Else)
+		case *SwitchExpr:
+			we(x.Subject)
+			for _, c := range x.Cases {
+				for _, v := range c.Values {
+					we(v)
+				}
+				wl(c.Body)
+			}
+		case *Pipe:
+			for _, s := range x.Stages {
+				we(s)
+			}
+		}
+	}
+	ws = func(s Stmt) {
+		switch x := s.(type) {
+		case *ExprStmt:
+			we(x.X)
+		case *VarDecl:
+			we(x.X)
+			declared[x.Name] = true
+		case *MultiDecl:
+			we(x.X)
+			for _, n := range x.Names {
+				if x.Decl {
+					declared[n] = true
+				} else {
+					used[n] = true
+				}
+			}
+		case *Assign:
+			we(x.Target)
+			we(x.X)
+		case *IncDec:
+			used[x.Name] = true
+		case *FuncDecl:
+			declared[x.F.Name] = true
+		case *Return:
+			we(x.X)
+		case *For:
+			if x.Init != nil {
+				ws(x.Init)
+			}
+			we(x.Cond)
+			if x.Post != nil {
+				ws(x.Post)
+			}
+			we(x.Iter)
+			if x.K != "" {
+				declared[x.K] = true
+			}
+			if x.V != "" {
+				declared[x.V] = true
+			}
+			wl(x.Body)
+		case *Defer:
+			we(x.Call)
+		}
+	}
+	wl(fl.Body)
+	var res []string
+	for n := range used {
+		if !declared[n] {
+			res = append(res, n)
+		}
+	}
+	return res
+}
